@@ -32,9 +32,11 @@ RULE = (
 )
 ASSUMPTIONS = [
     "flavour tolerance 1e-10 * scale, scale = entrywise |T| |op| |I^-1| |I| |f| (largest magnitude entering the cancellation)",
-    "x-grid tolerance 1e-9 * scale, scale = |R_target| |op| |R_input| |f| with the reference interpolation matrices "
-    "(the Lebesgue-type conditioning of the statement); grids <= 12 points and degree <= 4 keep the monomial "
-    "cancellation of the code's basis (see C34) below 3e-12",
+    "x-grid tolerance 1e-9 * scale + 64 eps * S, scale = |R_target| |op| |R_input| |f| with the reference interpolation "
+    "matrices (the Lebesgue-type conditioning of the statement, DESIGN) and S the same contraction with the exact "
+    "magnitude of the monomial terms of the active Lagrange polynomials in place of one R (rounding of a basis stored as "
+    "monomial coefficients, see C34; its size relative to the first term is histogrammed in the evidence classes; generated grids have <= 14 "
+    "points, bounded step ratios, degree <= 4 and no nearly coincident nodes)",
     "new target grids lie inside [x_min, 1] of the operator grid and new input grids cover it (outside its grid an "
     "interpolation basis is identically zero, so nothing is representable there)",
     "all grids of one case share the interpolation mode (log or linear), input grids have at least degree+1 points",
@@ -50,6 +52,8 @@ LEVEL_TEXT = (
 EVOL_ORDER = ["ph", "S", "g", "V", "V3", "V8", "V15", "V24", "V35", "T3", "T8", "T15", "T24", "T35"]
 UNI_ORDER = ["g", "ph", "S", "Sdelta", "V", "Vdelta", "Td3", "Vd3", "Tu3", "Vu3", "Td8", "Vd8", "Tu8", "Vu8"]
 NF = 14
+KAPPA = 64.0
+EPS = 2.220446049250313e-16
 
 
 def budget(tier):
@@ -158,7 +162,8 @@ def strategy(tier):
             elif ik == "superset":
                 extra = draw(st.lists(st.tuples(st.integers(0, n - 2), fl(0.3, 0.7)), min_size=1, max_size=4))
                 g = list(grid) + [_between(log, grid[i], grid[i + 1], t) for i, t in extra]
-                g += [grid[0] / draw(st.sampled_from([1.0, 2.0]))]
+                # (in linear mode x_min/2 would be a node nearly coincident with x_min: an ill-conditioned basis)
+                g += [grid[0] / draw(st.sampled_from([1.0, 2.0]))] if log else []
             elif ik == "equal":
                 g = list(grid)
             elif ik == "lowshift":
@@ -354,8 +359,12 @@ def check_xgrid(case):
     err = rng.uniform(0.0, 1e-3, (NF, n, NF, n)) if case["with_error"] else None
 
     # reference interpolation matrices (exact basis), independent of the code under test
-    Rt = np.eye(n) if tgt is None else np.array(L.interp_matrix([float(v) for v in u_old], deg, [float(v) for v in u_out]))
-    Ri = np.eye(n) if inp is None else np.array(L.interp_matrix([float(v) for v in u_in], deg, [float(v) for v in u_old]))
+    Rt, Mt = np.eye(n), np.zeros((n, n))
+    Ri, Mi = np.eye(n), np.zeros((n, n))
+    if tgt is not None:
+        Rt, Mt = (np.array(m) for m in L.interp_matrix_with_magnitude([float(v) for v in u_old], deg, [float(v) for v in u_out]))
+    if inp is not None:
+        Ri, Mi = (np.array(m) for m in L.interp_matrix_with_magnitude([float(v) for v in u_in], deg, [float(v) for v in u_old]))
     close = any(
         g is not None and g != grid and len(g) == n and np.allclose(g, grid) for g in (tgt, inp)
     )  # coordinate of the bucket only
@@ -393,15 +402,22 @@ def check_xgrid(case):
             f_in = rng.uniform(-1.0, 1.0, (NF, len(in_x)))
             got = np.einsum("aibl,bl->ai", nop, f_in)
             want = np.einsum("ij,ajbk,kl,bl->ai", Rt, opt, Ri, f_in)
-        scale = np.einsum("ij,ajbk,kl,bl->ai", np.abs(Rt), np.abs(opt), np.abs(Ri), np.abs(f_in))
+        contract = lambda a, b: np.einsum("ij,ajbk,kl,bl->ai", a, np.abs(opt), b, np.abs(f_in))  # noqa: E731
+        scale = contract(np.abs(Rt), np.abs(Ri))
+        # rounding of a basis stored as monomial coefficients (see C34): <= KAPPA eps M per matrix entry
+        tol = 1e-9 * scale + KAPPA * EPS * (contract(Mt, np.abs(Ri)) + contract(np.abs(Rt), Mi))
         dev = np.abs(got - want)
-        bad = ~np.isfinite(got) | (dev > 1e-9 * scale)
+        bad = ~np.isfinite(got) | (dev > tol)
+        if name == "polynomial":
+            r = float(np.max((tol - 1e-9 * scale) / (1e-9 * scale)))
+            res.classes.append(f"cancellation-term/1e-9scale={'<=0.01' if r <= 0.01 else '<=0.1' if r <= 0.1 else '<=1' if r <= 1 else '>1'}")
         if bad.any():
-            idx = tuple(int(v) for v in np.unravel_index(int(np.argmax(np.where(np.isfinite(dev), dev / scale, np.inf))), dev.shape))
+            idx = tuple(int(v) for v in np.unravel_index(int(np.argmax(np.where(np.isfinite(dev), dev / tol, np.inf))), dev.shape))
             res.fail(
-                f"{ID}/xgrid/{name}/allclose-grids={close}",
-                f"log={log} n={n} deg={deg} target={tk} input={ik}: reshaped.f[{idx}] = {float(got[idx])!r} at x={out_x[idx[1]]!r}, "
-                f"expected {float(want[idx])!r}, |dev| {dev[idx]:.3e} > 1e-9 * {scale[idx]:.3e}",
+                # one root cause, one bucket: a different grid that numpy.allclose calls equal to the operator grid
+                f"{ID}/xgrid/allclose-grid-treated-as-equal" if close else f"{ID}/xgrid/{name}",
+                f"[{name}] log={log} n={n} deg={deg} target={tk} input={ik}: reshaped.f[{idx}] = {float(got[idx])!r} at x={out_x[idx[1]]!r}, "
+                f"expected {float(want[idx])!r}, |dev| {dev[idx]:.3e} > tol {tol[idx]:.3e} (1e-9 * {scale[idx]:.3e} + cancellation)",
             )
     return res
 
